@@ -721,7 +721,7 @@ fn random_op(r: &mut XorShift, sender_side: bool) -> crate::ops::Op {
                 extra: r.below(3) as u8,
             },
             13 => Op::CloneRx { rx: s },
-            14 => Op::DropRx { rx: s },
+            14 => if r.below(4) == 0 { Op::DropRxUnw { rx: s } } else { Op::DropRx { rx: s } },
             _ => Op::Yield,
         }
     }
